@@ -164,7 +164,7 @@ def child_cli(desc: dict) -> dict:
     try:
         sys.argv = ["oneliner"] + list(desc["argv"])
         sys.stdout = fs.make_stdout()
-        sys.stderr = err
+        sys.stderr = None if (desc.get("knobs") or {}).get("stderr_closed") else err
         try:
             if desc.get("trace_main") or intr is not None:
                 sys.settrace(tracer)
@@ -296,12 +296,12 @@ def _valid_item(rng):
     return {"cls": "valid", "name": name, "value": rng.choice(OPTION_SPACE[name])}
 
 
-def _invalid_item(rng):
+def _invalid_item(rng, attr_names=None):
     c = rng.random()
     if c < 0.34:
         k = rng.random()
         if k < 0.5:
-            name = rng.choice(ATTR_NAMES)
+            name = rng.choice(attr_names or ATTR_NAMES)
         elif k < 0.8:
             name = rng.choice(["zz%d" % rng.randint(0, 99), "unparse", "unparser2", "wrapper", "style", "un parser", "-", "\u00fcnparser"])
         else:
@@ -340,13 +340,26 @@ def _spell(item, rng) -> list:
     return ["-C" + arg]
 
 
-def gen_base(seed: int) -> dict:
+def introspect_attr_names() -> list:
+    """Every attribute name of an option object (of the working tree) that is not one of the three
+    options: `-C <such a name>=x` must be rejected like any other unknown name."""
+    try:
+        from oneliner.config import Configs
+
+        names = set(dir(Configs)) | set(vars(Configs)) | set(getattr(Configs, "config_names", ()) or ())
+        names = {n for n in names if isinstance(n, str) and n not in OPTION_NAMES and "=" not in n and n}
+        return sorted(names)
+    except Exception:
+        return list(ATTR_NAMES)
+
+
+def gen_base(seed: int, attr_names=None) -> dict:
     rng = _random.Random(seed)
     # ---- input -----------------------------------------------------------------------
     in_kind = rng.choice(["pool"] * 13 + ["special"] * 5 + ["absent", "dir", "unreadable"])
     in_path = rng.choice(["in.py", "in.py", "src/main.py", "\u00e9ntr\u00e9e.py", "in[1].py", "my in.py", "./in.py", "@in.py", "src/../in2.py", "~/in.py"])
     out_path = rng.choice(["out.txt", "out.txt", "build/out.py", "r\u00e9sultat.txt", "out[1].txt", "my out.txt", "./out.txt",
-                           "build/../out2.txt", "~out.txt", "out.txt~", "~/out.txt"])
+                           "build/../out2.txt", "~out.txt", "out.txt~", "~/out.txt", "0", "None"])
     files, dirs, ro, unreadable = {}, set(), [], []
     for p in (in_path, out_path):
         if "/" in p:
@@ -389,7 +402,9 @@ def gen_base(seed: int) -> dict:
     out_mode = rng.choice(["-o", "-o", "--output", "stdout", "stdout", "-oATTACHED", "--output="])
     out_state = "n/a"
     if out_mode != "stdout":
-        out_state = rng.choice(["absent", "absent", "shorter", "longer", "same_as_in", "missing_dir", "is_dir", "not_writable", "ro_dir"])
+        out_state = rng.choice(["absent", "absent", "absent", "shorter", "shorter", "longer", "longer", "same_as_in", "same_as_in",
+                                "missing_dir", "missing_dir", "is_dir", "is_dir", "not_writable", "not_writable", "ro_dir", "ro_dir",
+                                "empty_name"])
         if out_state == "shorter":
             files[out_path] = b"old"
         elif out_state == "longer":
@@ -406,6 +421,8 @@ def gen_base(seed: int) -> dict:
         elif out_state == "not_writable":
             files[out_path] = b"precious"
             ro.append(out_path)
+        elif out_state == "empty_name":
+            out_path = ""
         elif out_state == "ro_dir":
             out_path = "rodir/out.txt"
             dirs.add("rodir")
@@ -414,25 +431,30 @@ def gen_base(seed: int) -> dict:
     items = []
     n_valid = rng.choice([0, 0, 1, 1, 2, 3, 4])
     chosen: dict[str, str] = {}
+    contradict = rng.random() < 0.12  # the same option with different values: ambiguous, judged permissively
     for _ in range(n_valid):
         it = _valid_item(rng)
-        if it["name"] in chosen:
+        if it["name"] in chosen and not contradict:
             it["value"] = chosen[it["name"]]  # repeated only with the same value
         chosen[it["name"]] = it["value"]
         items.append(it)
     if rng.random() < 0.15:
         v = chosen.get("unparser") or rng.choice(OPTION_SPACE["unparser"])
+        if contradict:
+            v = rng.choice(OPTION_SPACE["unparser"])
         chosen["unparser"] = v
         items.append({"cls": "legacy", "value": v})
     n_invalid = rng.choice([0, 0, 0, 0, 1, 1, 1, 2])
     for _ in range(n_invalid):
-        items.append(_invalid_item(rng))
+        items.append(_invalid_item(rng, attr_names))
     rng.shuffle(items)
     dangling = [it for it in items if it["cls"] == "dangling_C"]
     items = [it for it in items if it["cls"] != "dangling_C"] + dangling[:1]
     # ---- argv parts (kept as parts so the shrinker can drop items) --------------------------
     parts = [{"kind": "item", "item": it, "argv": _spell(it, rng)} for it in items if it["cls"] != "dangling_C"]
     parts.append({"kind": "in", "argv": [in_path]})
+    if out_path == "" and out_mode == "-oATTACHED":
+        out_mode = "-o"  # "-o" + "" would be a dangling -o
     if out_mode in ("-o", "--output"):
         parts.append({"kind": "out", "argv": [out_mode, out_path]})
     elif out_mode == "-oATTACHED":
@@ -452,6 +474,7 @@ def gen_base(seed: int) -> dict:
         "locale": rng.choice(["utf-8", "latin-1", "ascii"]),
         "stdout_encoding": rng.choice(["utf-8", "utf-8", "utf-8", "ascii", "latin-1", "cp1252"]),
         "stdout_isatty": rng.random() < 0.25,
+        "stderr_closed": rng.random() < 0.1,  # the process was started with descriptor 2 closed: sys.stderr is None
     }
     return materialise({
         "prop": "C16", "seed": seed, "parts": parts, "out_mode": "stdout" if out_mode == "stdout" else "file",
@@ -580,10 +603,32 @@ def expected_model(items) -> dict:
     return m
 
 
+def candidate_models(items) -> list:
+    """All option assignments a reasonable command line may derive from the items.  When no option
+    is given two different values there is exactly one; when an option is given contradictory
+    values (which one wins is a policy the statement does not fix) every choice is a candidate."""
+    vals: dict[str, list] = {}
+    for it in items:
+        if it["cls"] == "valid":
+            vals.setdefault(it["name"], [])
+            if it["value"] not in vals[it["name"]]:
+                vals[it["name"]].append(it["value"])
+        elif it["cls"] == "legacy":
+            vals.setdefault("unparser", [])
+            if it["value"] not in vals["unparser"]:
+                vals["unparser"].append(it["value"])
+    out = [{}]
+    for n in OPTION_NAMES:
+        if n in vals:
+            out = [dict(m, **{n: v}) for m in out for v in vals[n]]
+    return out
+
+
 class C16Ctx:
     def __init__(self, tpl):
         self.tpl = tpl
         self.exp_cache: dict[str, dict] = {}
+        self.attr_names = fork_run(lambda _: introspect_attr_names(), None)
 
     def exp(self, data: bytes, model: dict, do_eval: bool) -> dict:
         key = sha_text(data.hex())[:20] + "@" + cjson(model) + ("E" if do_eval else "")
@@ -637,8 +682,28 @@ def judge(ctx: C16Ctx, desc: dict, res: dict) -> list:
     if desc["in_state"] != "present":
         return V  # not gated: the statement quantifies over input files that exist
     data = bytes.fromhex(fsd["files"][desc["in_path"]])
-    model = expected_model(desc["items"])
-    exp = ctx.exp(data, model, do_eval=True)
+    cands = candidate_models(desc["items"])
+    ambiguous = len(cands) > 1
+    exps = [ctx.exp(data, m, do_eval=True) for m in cands]
+    exp = exps[0]
+    if ambiguous:
+        # contradictory values for one option: any candidate result is accepted, and so is refusing
+        # the command line; only a successful run with a text that matches NO candidate is wrong
+        if status == 0 and all(e["out"] == "ok" for e in exps):
+            raw = bytes.fromhex(res["stdout"]) if desc["out_mode"] == "stdout" else (
+                bytes.fromhex(final["files"][out_p]) if out_p in final["files"] else None)
+            good = False
+            if raw is not None:
+                try:
+                    t = raw.decode(desc["knobs"].get("stdout_encoding", "utf-8") if desc["out_mode"] == "stdout" else "utf-8")
+                    shas = {e["sha"] for e in exps}
+                    good = sha_text(normalise(t)) in shas or (desc["out_mode"] == "stdout" and t.endswith("\n")
+                                                               and sha_text(normalise(t[:-1])) in shas)
+                except UnicodeDecodeError:
+                    good = False
+            if not good and not error_fault:
+                viol("P1", "exit0-but-text-matches-no-candidate-option-set", candidates=len(cands))
+        return V
     if exp["out"] == "exc":
         # the library call raises for these contents: there is no text to write, so a run that
         # reports success has written something the library did not return
@@ -732,7 +797,7 @@ def register(tpl):
         if "descs" in req:
             bases = [(d.get("seed", 0), materialise(d)) for d in req["descs"]]
         else:
-            bases = [(sd, gen_base(sd)) for sd in req["seeds"]]
+            bases = [(sd, gen_base(sd, ctx.attr_names)) for sd in req["seeds"]]
         rngm = _random.Random(derive_seed(bases[0][0] if bases else 0, "multi"))
 
         def probe(name):
@@ -769,7 +834,7 @@ def register(tpl):
                 probe("invalid_item_with_preexisting_OUT")
             if base["out_state"] == "same_as_in":
                 probe("OUT_is_IN")
-            if any(it["cls"] == "unknown_name" and it["name"] in ATTR_NAMES for it in base["items"]):
+            if any(it["cls"] == "unknown_name" and it["name"] in ctx.attr_names for it in base["items"]):
                 probe("attribute_name_used_as_option_name")
             if base["special"] in ("surrogate", "surrogate_pair_esc"):
                 probe("result_with_lone_surrogate")
@@ -823,7 +888,7 @@ def register(tpl):
         return agg
 
     def h_gen(req):
-        return gen_base(req["seed"])
+        return gen_base(req["seed"], ctx.attr_names)
 
     def h_exp(req):
         return ctx.exp(bytes.fromhex(req["data"]), req["model"], req.get("eval", False))
